@@ -610,6 +610,35 @@ def _foreign_stores(fn):
     return out
 
 
+_OBJ_PARAMS = {"topology", "top", "traj", "trajectory", "target", "reference"}
+_MEMO_CONTROL = """
+@functools.lru_cache(maxsize=8)
+def f(topology, flag):
+    return hash(topology)
+"""
+
+
+def _object_keyed_memo(fn):
+    """(node, description) for a memoising decorator on a function that takes a Topology / Trajectory, and for hash(<such an argument>)"""
+    out = []
+    ps = {a.arg for a in fn.args.posonlyargs + fn.args.args + fn.args.kwonlyargs}
+    objs = ps & _OBJ_PARAMS
+    if not objs:
+        return out
+    for d in fn.decorator_list:
+        nm = call_name(d) if isinstance(d, ast.Call) else dotted(d)
+        if nm and nm.split(".")[-1] in ("lru_cache", "cache", "memoize", "memoized", "cached"):
+            out.append((d, "@%s on %s(%s, ...)" % (nm, fn.name, sorted(objs)[0])))
+    for n in walk_no_nested(fn):
+        if isinstance(n, ast.Call) and call_name(n) == "hash" and n.args:
+            root = n.args[0]
+            while isinstance(root, (ast.Attribute, ast.Subscript)):
+                root = root.value
+            if isinstance(root, ast.Name) and root.id in objs:
+                out.append((n, "`%s` in %s" % (src(n), fn.name)))
+    return out
+
+
 def no_foreign_attribute_stores(ctx, rule, rels, floor=1):
     """An analysis function must not park derived data on the objects it is given (`top._cache = ...`): the owner's mutators cannot
     invalidate a field they do not know, so a later call on the edited object answers from the old state.  Expected count is zero;
@@ -617,12 +646,15 @@ def no_foreign_attribute_stores(ctx, rule, rels, floor=1):
     ctl = ast.parse(_FOREIGN_CONTROL).body[0]
     if len(_foreign_stores(ctl)) != 1:
         raise AnalysisError("no_foreign_attribute_stores: the built-in positive example is no longer recognised")
+    if len(_object_keyed_memo(ast.parse(_MEMO_CONTROL).body[0])) != 2:
+        raise AnalysisError("no_foreign_attribute_stores: the built-in positive example of an object-keyed memo is no longer recognised")
     n_fn = 0
     for rel in rels:
         m = ctx.py.mod(rel)
         ctx.analysed_files.add(rel)
         seen = set()
         bad = []
+        memo = []
         for q, fn in sorted(m.functions.items()):
             if id(fn) in seen:
                 continue
@@ -630,8 +662,13 @@ def no_foreign_attribute_stores(ctx, rule, rels, floor=1):
             n_fn += 1
             for node, what in _foreign_stores(fn):
                 bad.append((q, node, what))
+            for node, what in _object_keyed_memo(fn):
+                memo.append((q, node, what))
         ctx.decide(not bad, rule, bad[0][1] if bad else m.tree, rel, bad[0][0] if bad else "<module>", "no function stores attributes on its arguments (%d functions)" % len(seen), "",
                    "`%s` is stored on an object passed in by the caller: a memo kept on a Topology / Trajectory outside its class is never invalidated when the object is edited" % (bad[0][2] if bad else ""))
+        ctx.decide(not memo, rule, memo[0][1] if memo else m.tree, rel, memo[0][0] if memo else "<module>", "no result is memoised under the hash of a Topology / Trajectory argument (%d functions)" % len(seen), "",
+                   "%s: the hash of a Topology covers indices, residue names and bonds but not atom names or elements (and `is` short-cuts its comparison), so after an in-place edit - or for another topology with the same hash - "
+                   "the answer computed for the earlier object is returned" % (memo[0][2] if memo else ""))
     if n_fn < floor:
         raise AnalysisError("no_foreign_attribute_stores: %d functions in %s" % (n_fn, rels))
 
